@@ -75,7 +75,9 @@ func allPairs() []pairDef {
 			New: wh.Build{
 				wh.F("g/pack.bin", "A.r41/1500000.B.C.r42/700000.D.E.F.r43/65536.H.r44/900000.I.J"),
 				wh.F("g/pack2.bin", "r45/300000.K.L.r46/600000.M.r47/200000.N.O.P.r48/150000"),
-				wh.F("h.bin", "U.r49/65536.W.X.r50/10"),
+				// shorter than the old h.bin; the old content is also copied whole to h.orig
+				wh.F("h.bin", "U.r49/65536.X.r50/10"),
+				wh.F("h.orig", "U.V.W.X"),
 				wh.F("same", "Y.Y/77"),
 				wh.F("same.copy", "Y.Y/77"),
 				wh.F("empty", ""),
